@@ -1,6 +1,7 @@
 package main
 
 import (
+	"encoding/json"
 	"fmt"
 	"go/ast"
 	"go/token"
@@ -480,6 +481,38 @@ func ruleC10P1(r *Run) {
 			if !allowed {
 				// re-panics inside deferred recover handlers of allowed parents
 				reason, allowed = allowedPanics[fnName(topFunc(fn))]
+			}
+			if !allowed {
+				// the panic moved, with the switch it ends, into a helper: a function that did not exist on the confirmed
+				// tree, is unexported, is called only from allowed functions, and those no longer panic themselves
+				top := topFunc(fn)
+				var base map[string]wiredEntry
+				_ = json.Unmarshal(baselineReachableJSON, &base)
+				if _, existed := base[fnName(top)]; !existed && len(base) > 0 && (top.Object() == nil || !top.Object().Exported()) {
+					sites := p.staticCallSites(top)
+					moved := len(sites) > 0
+					for _, site := range sites {
+						caller := topFunc(site.Parent())
+						why, ok2 := allowedPanics[fnName(caller)]
+						if !ok2 {
+							moved = false
+							continue
+						}
+						stillPanics := false
+						withAnon(caller, func(g *ssa.Function) {
+							allInstrs(g, func(x ssa.Instruction) {
+								if q, isP := x.(*ssa.Panic); isP && q.Pos().IsValid() {
+									stillPanics = true
+								}
+							})
+						})
+						if stillPanics {
+							moved = false
+						}
+						reason = "moved out of " + fnName(caller) + ": " + why
+					}
+					allowed = moved
+				}
 			}
 			r.Check(name+" panic", allowed, posOf(p, pn), name, "explicit panic in library code; allowed: "+reason)
 		})
